@@ -10,7 +10,7 @@ ID = 'C09'
 RULE = ('Hypothesis search inputs, degenerate-biased: 1-4 geos, eligibility styles {none, all-control, all-treatment, '
         'all-excluded, fixed-heavy, mixed}, unsatisfiable or extreme constraints (size ranges beyond the geos, tolerances '
         '1e-3, unsatisfiable-low/high share and budget ranges, n_geos_max, iroas=0, n_pretest_max=n_test+3), plus the general '
-        'generator (<=6 geos) for breadth; both searches, each on a fresh object, under a 120 s CPU-time watchdog. '
+        'generator (<=6 geos) for breadth; both searches, each on a fresh object, under a CPU-time watchdog (20 s quick / 120 s thorough); plus accepted-but-unusual inputs (integer-valued float size ranges, tests of ~100 time points, bit-identical geos). '
         'Non-trivial = some search returned [] or ValueError, or the admitted set is smaller than 2; distinct by '
         '(eligibility class vector, set of specified constraints, outcomes).')
 BUDGET = {'quick': 1600, 'thorough': 60000}
@@ -20,7 +20,7 @@ ROUNDS = {'quick': 3, 'thorough': 6}
 ASSUMPTIONS = ['window of >= n_test+3 non-constant points holds by construction', 'termination is observed under a CPU budget, not proved',
                'ValueError at construction of the data/parameter objects means "input not accepted" (counted, not checked)']
 
-WATCHDOG_S = 120
+WATCHDOG = {'quick': 20, 'thorough': 120}     # CPU seconds of this process; terminating cases need < 1 s (quick sizes) / < 15 s (8 geos)
 
 
 class _Timeout(BaseException):
@@ -31,9 +31,42 @@ def _alarm(signum, frame):
   raise _Timeout()
 
 
+@st.composite
+def _special(draw):
+  """Accepted but unusual inputs: integer-valued float size ranges, long tests (n_test ~ 100), bit-identical geos."""
+  kind = draw(st.sampled_from(['float-ranges', 'long-test', 'identical-geos']))
+  if kind == 'long-test':
+    spec = draw(G.search_spec(max_geos=3, min_geos=2, constraint_p=0.15, max_dates=12))
+    n_test = draw(st.sampled_from([96, 97, 98, 99, 100, 104, 120]))
+    n_dates = n_test + draw(st.integers(3, 8))
+    panel = spec['panel']
+    panel['n_test'], panel['n_dates'] = n_test, n_dates
+    panel['factor'] = [((7 * i) % 5) - 2 for i in range(n_dates)]
+    panel['noise'] = [[((11 * i + 5 * g) % 64) - 32 for i in range(n_dates)] for g in range(len(panel['ids']))]
+    panel['flat'], panel['missing'] = [], []
+    # the window (last n_pretest_max dates) must hold >= n_test + 3 points: the default of 90 would not
+    spec['params']['n_pretest_max'] = draw(st.integers(n_test + 3, n_dates + 5))
+    spec['params']['budget_q'] = spec['params']['share_q'] = None
+  elif kind == 'float-ranges':
+    spec = draw(G.search_spec(max_geos=4, min_geos=2, constraint_p=0.3))
+    spec['params']['treatment_geos_range'] = list(draw(st.sampled_from([(1, 1), (1, 2), (2, 3), (1, 4)])))
+    if draw(st.booleans()):
+      spec['params']['control_geos_range'] = list(draw(st.sampled_from([(1, 1), (1, 2), (2, 3), (1, 4)])))
+    spec['params']['float_ranges'] = True
+  else:
+    spec = draw(G.search_spec(max_geos=5, min_geos=3, constraint_p=0.2, elig_style=draw(st.sampled_from(['mixed', 'all-control', 'free']))))
+    n = len(spec['panel']['ids'])
+    i = draw(st.integers(0, n - 1))
+    j = draw(st.integers(0, n - 2))
+    spec['panel']['copy'] = [[i, j if j < i else j + 1]]
+    spec['panel']['flat'] = []
+  spec['special'] = kind
+  return spec
+
+
 def strategy(tier):
   big = 6 if tier == 'quick' else 8
-  return st.one_of(G.search_spec(max_geos=4, degenerate=True, constraint_p=0.6),
+  return st.one_of(G.search_spec(max_geos=4, degenerate=True, constraint_p=0.6), _special(),
                    G.search_spec(max_geos=2, degenerate=True, constraint_p=0.4),
                    G.search_spec(max_geos=big, constraint_p=0.5))
 
@@ -44,14 +77,18 @@ def run(spec):
   viol = []
   outcomes = []
   cls = ['geos:%d' % len(sp.geos), 'elig:%s' % (spec['elig']['style'] if spec['elig'] else 'none')]
+  if spec.get('special'):
+    cls.append('special:' + spec['special'])
   det = L.describe(case)
   for method in ('exhaustive_search', 'greedy_search'):
     old = signal.signal(signal.SIGVTALRM, _alarm)
-    signal.setitimer(signal.ITIMER_VIRTUAL, WATCHDOG_S)
+    import os
+    budget = WATCHDOG.get(os.environ.get('VERIF_TIER_EFFECTIVE', 'thorough'), 120)
+    signal.setitimer(signal.ITIMER_VIRTUAL, budget)
     try:
       res = L.run_search(case, method, history=spec.get('history'))
     except _Timeout:
-      res = ('crash', 'no-termination', 'CPU budget of %d s exhausted' % WATCHDOG_S)
+      res = ('crash', 'no-termination', 'CPU budget of %d s exhausted' % budget)
     finally:
       signal.setitimer(signal.ITIMER_VIRTUAL, 0)
       signal.signal(signal.SIGVTALRM, old)
